@@ -325,7 +325,7 @@ func runCheck(repo, prop, tier, speclib string, seed int64, writeEvidence bool, 
 				boundedLoops[k] = v
 			}
 		}
-		assume["64-bit integer arithmetic treated as mathematical (no overflow); arithmetic of width <= 32 and all narrowing conversions are wrapped exactly"] = true
+		assume["64-bit integer arithmetic treated as mathematical (no overflow), except unsigned 64-bit subtraction, which wraps exactly; arithmetic of width <= 32 and all narrowing conversions are wrapped exactly"] = true
 		assume["sequential semantics per function: no interference from other goroutines except through contracts"] = true
 		assume["Go type checker, x/tools go/ssa v0.29.0 lowering, govc itself, z3/cvc5 soundness for unsat"] = true
 		assume["frames: every store, map update and call (with or without contract) is checked against the function's assigns clause and against the modifies clause of every enclosing cut loop; exception: an in-place append into spare capacity is checked against the function's clause only"] = true
